@@ -20,6 +20,7 @@ pub async fn handle_did_open_text_document(
     state: &ServerState,
     params: DidOpenTextDocumentParams,
 ) -> Result<(), LanguageServerError> {
+    verif_point!("o_enter");
     let file_uri = &params.text_document.uri;
     // Initialize the SyncWorkspace for this file if it doesn't exist.
     let sync_workspace = state.get_or_init_sync_workspace(file_uri).await?;
@@ -29,6 +30,7 @@ pub async fn handle_did_open_text_document(
     state.documents.handle_open_file(&uri).await;
 
     send_new_compilation_request(state, session.clone(), &uri, None, false, sync_workspace);
+    verif_point!("o_ic_store");
     state.is_compiling.store(true, Ordering::SeqCst);
     state.wait_for_parsing().await;
     state
@@ -48,20 +50,26 @@ fn send_new_compilation_request(
 ) {
     let file_versions = file_versions(&state.documents, uri, version.map(|v| v as u64));
 
+    verif_point!("s_ic_load");
     if state.is_compiling.load(Ordering::SeqCst) {
         // If we are already compiling, then we need to retrigger compilation
+        verif_point!("s_rt_store");
         state.retrigger_compilation.store(true, Ordering::SeqCst);
     }
 
     // Check if the channel is full. If it is, we want to ensure that the compilation
     // thread receives only the most recent value.
+    verif_point!("s_is_full");
     if state.cb_tx.is_full() {
+        verif_point!("s_try_recv");
         while let Ok(TaskMessage::CompilationContext(_)) = state.cb_rx.try_recv() {
             // Loop will continue to remove `CompilationContext` messages
             // until the channel has no more of them.
+            verif_point!("s_try_recv");
         }
     }
 
+    verif_point!("s_send");
     let _ = state
         .cb_tx
         .send(TaskMessage::CompilationContext(CompilationContext {
@@ -83,6 +91,7 @@ pub async fn handle_did_change_text_document(
     state: &ServerState,
     params: DidChangeTextDocumentParams,
 ) -> Result<(), LanguageServerError> {
+    verif_point!("c_enter");
     if let Err(err) = state
         .pid_locked_files
         .mark_file_as_dirty(&params.text_document.uri)
@@ -92,6 +101,7 @@ pub async fn handle_did_change_text_document(
 
     let (uri, session) = state.uri_and_session_from_workspace(&params.text_document.uri)?;
     let sync_workspace = state.get_sync_workspace_for_uri(&params.text_document.uri)?;
+    verif_point!("c_write");
     state
         .documents
         .write_changes_to_file(&uri, &params.content_changes)
@@ -130,6 +140,7 @@ pub(crate) async fn handle_did_save_text_document(
     state: &ServerState,
     params: DidSaveTextDocumentParams,
 ) -> Result<(), LanguageServerError> {
+    verif_point!("v_enter");
     state
         .pid_locked_files
         .remove_dirty_flag(&params.text_document.uri)?;
